@@ -210,9 +210,9 @@ func flattenScenarios(tier string, seed int64, scratch string) ([]*Case, []strin
 		all = append(all, fs)
 	}
 	sort.Slice(all, func(i, j int) bool { return all[i].Key() < all[j].Key() })
-	pickN := 140
+	pickN := 400
 	if tier == "thorough" {
-		pickN = 2500
+		pickN = len(all)
 	}
 	if v := os.Getenv("VERIF_SCEN"); v != "" {
 		if n, e := strconv.Atoi(v); e == nil {
@@ -249,7 +249,9 @@ func flattenScenarios(tier string, seed int64, scratch string) ([]*Case, []strin
 		}
 		b.Feat = Features{NAux: len(fs.Docs) - 1, Collision: fs.C != "none",
 			Anon:      fs.T == "anonprop" || fs.T == "anonitems" || fs.T == "anonallof",
-			SharedPtr: fs.T == "sharedparam" || fs.T == "sharedresp"}
+			SharedPtr: fs.T == "sharedparam" || fs.T == "sharedresp",
+			// a pointer nested in a pointer target belongs to the wider class W+ (C09 only)
+			WPlus: fs.S == "ptrarray"}
 		bindPlaceholders(g, b.Docs)
 		for _, cc := range g.Names.ToConcrete {
 			if !safeKeyRe.MatchString(cc) && !strings.HasPrefix(cc, "/") {
